@@ -470,11 +470,52 @@ def run(chk):
         n_ops += ub_scan(chk, 'R11', cn, stmts, tu, 'runtime/' + cn)
         # R11.5: no typed dereference of memory->data
         bad = []
-        for nd in walk(astdb.fn_body(f)):
-            if nd.get('kind') == 'UnaryOperator' and nd.get('opcode') == '*':
+        body_ = astdb.fn_body(f)
+        # pointers into linear memory: expressions mentioning ->data, and locals initialised/assigned from such expressions
+        tainted = set()
+        changed = True
+
+        def from_data(x):
+            return any((y.get('kind') == 'MemberExpr' and y.get('name') == 'data') or
+                       (y.get('kind') == 'DeclRefExpr' and y.get('referencedDecl', {}).get('id') in tainted) for y in walk(x))
+        while changed:
+            changed = False
+            for nd in walk(body_):
+                if nd.get('kind') == 'VarDecl' and nd.get('init') and nd.get('id') not in tainted and '*' in (astdb.qtype(nd) or ''):
+                    if from_data([c for c in kids(nd) if c.get('kind')][-1]):
+                        tainted.add(nd['id'])
+                        changed = True
+                if nd.get('kind') == 'BinaryOperator' and nd.get('opcode') == '=':
+                    l = astdb.strip(kids(nd)[0])
+                    if l.get('kind') == 'DeclRefExpr' and l['referencedDecl'].get('id') not in tainted and '*' in (astdb.qtype(l) or '') \
+                            and from_data(kids(nd)[1]):
+                        tainted.add(l['referencedDecl']['id'])
+                        changed = True
+
+        def scan(nd, guards):
+            if not isinstance(nd, dict) or not nd.get('kind'):
+                return
+            if nd['kind'] == 'IfStmt':
+                inner = nd['inner']
+                scan(inner[0], guards)
+                scan(inner[1], guards + [inner[0]])
+                for extra in inner[2:]:
+                    scan(extra, guards)
+                return
+            if nd['kind'] == 'UnaryOperator' and nd.get('opcode') == '*':
                 sub = astdb.strip(kids(nd)[0])
-                if sub.get('kind') == 'CStyleCastExpr' and any(x.get('kind') == 'MemberExpr' and x.get('name') == 'data' for x in walk(sub)):
-                    bad.append(astdb.loc_str(nd))
+                if sub.get('kind') == 'CStyleCastExpr' and from_data(sub):
+                    pt = (astdb.qtype(sub) or '').replace('const ', '').replace('volatile ', '').strip().rstrip('*').strip()
+                    pointee = tu.desugar(pt)
+                    if pointee not in ('char', 'unsigned char', 'signed char', 'void'):
+                        td = tu.typedefs.get(pt)
+                        may_alias = td is not None and any(c.get('kind') == 'MayAliasAttr' for c in td.get('inner', []))
+                        aligned = any(from_data(g) and any(x.get('kind') == 'BinaryOperator' and x.get('opcode') == '&' for x in walk(g)) for g in guards)
+                        if not (may_alias and aligned):
+                            bad.append(astdb.loc_str(nd))
+            for c in nd.get('inner', []):
+                scan(c, guards)
+        scan(body_, [])
         chk.expect(not bad, 'R11.5', cn + ':no-typed-deref', '%s dereferences linear memory through a cast pointer at %s (alignment / aliasing UB)'
                    % (cn, bad[:2]), 'runtime/' + cn + ':typed-deref')
     chk.ok('R11.1', 'arithmetic-operators-scanned', '%d arithmetic/shift operators in %d templates and %d runtime functions' % (n_ops, len(tpls), len(callees)))
